@@ -131,7 +131,7 @@ class TlcResult:
     def coverage_zero_actions(self):
         """Names of actions that TLC's -coverage report shows as never taken."""
         zero = []
-        for m in re.finditer(r"<(\w+) line \d+, col \d+ to line \d+, col \d+ of module (\w+)>: (\d+):(\d+)", self.out):
+        for m in re.finditer(r"<(\w+) line \d+, col \d+ to line \d+, col \d+ of module (\w+)(?: \([\d ]+\))?>: (\d+):(\d+)", self.out):
             if int(m.group(4)) == 0 and m.group(1) not in ("Init",):
                 zero.append(m.group(1))
         return sorted(set(zero))
